@@ -162,6 +162,8 @@ def section_convert():
         (Dagger(c) * c * d + d * Nc, [c, d]), (a * c * Dagger(a) * Dagger(c) + Na * Nc, [a, c]), (pauli.SigmaX("s") * pauli.SigmaZ("s"), [s]),
         (pauli.SigmaY("s") * pauli.SigmaMinus("s") + pauli.SigmaZ("s"), [s]), (l * Dagger(l) + Dagger(l) ** 2 * l, [l]),
         ((a * Dagger(c) + c * Dagger(a)) ** 2, [a, c]), (sympy.exp(Na) * a, [a]),
+        # sums with a term that vanishes identically (c^+ N_c = c^+ c^+ c = 0): the term still has to be convertible
+        (Dagger(c) * Nc + d, [c, d]), (Dagger(c) * Nc + 2 * NumberOperator(d) * d + a, [a, c, d]), (Nc * Dagger(c) + Dagger(c) * Nc + Dagger(d) * d, [c, d]),
     ]
     for expr, ops in exprs:
         cases += 1
@@ -418,12 +420,12 @@ def section_secondq():
                 continue
             sub = [labels[i] for i in range(m) for _ in range(rep.dim)] if labels else None
             nkw = {"subspace_indices": sub} if labels else {}
-            Htn, Un, _ = block_diagonalize([np.diag(np.diag(h0).real), h1], **nkw)
+            Htn, Un, Udn = block_diagonalize([np.diag(np.diag(h0).real), h1], **nkw)
             nb = (max(labels) + 1) if labels else 1
             rows = [[i for i in range(m) if (labels[i] if labels else 0) == blk] for blk in range(nb)]
             interior = rep.interior(N + max_shift(NOF.from_expr(sum(H1m), ops)) * N + 1)
             for order in range(N + 1):
-                for (S, Sn, nm) in ((Ht, Htn, "H_tilde"), (U, Un, "U")):
+                for (S, Sn, nm) in ((Ht, Htn, "H_tilde"), (U, Un, "U"), (Ud, Udn, "U_adjoint")):
                     for bi in range(nb):
                         for bj in range(nb):
                             got = _block_matrix(rep, S[(bi, bj, order)], (len(rows[bi]), len(rows[bj])))
